@@ -38,6 +38,13 @@ Section Wrapper.
     let a_x2 := x2 * cA in
     mkapt ((xy + xy) * inv (cA * x2 + y2)) ((y2 - a_x2) * inv ((1 + 1) - a_x2 - y2)).
 
+  (* CurveVar::scalar_mul_le (ark-r1cs-std default: little-endian double-and-add with a select per bit), on the element values:
+       res = zero; multiple = self; for bit in bits { tmp = res + multiple; res = bit.select(tmp, res); multiple.double_in_place() } *)
+  Definition gscalar_mul_le (p : apt) (bits : list bool) : apt :=
+    fst (fold_left (fun (st : apt * apt) (b : bool) =>
+                      let '(res, mult) := st in ((if b then gadd res mult else res), gdbl mult))
+                   bits (mkapt 0 1, p)).
+
   (* LazyElementVar.inner with values *)
   Inductive wstate := WEnc (s : F) | WElt (p : apt) | WBoth (s : F) (p : apt).
   (* (all constraints so far satisfied, cache) *)
